@@ -20,17 +20,21 @@ RULE = ("(a) random: generated point clouds (<=300 points quick / <=2000 thoroug
         "executable Lean specification RoundTripOK evaluated on the implementation's outputs; distinct op lines; "
         "input_distribution lists the member of every option family each case used and the stream class produced")
 THEOREM_BACKED = "see evidence.coverage.theorems"
-CORRESPONDENCE_ONLY = ('the Edgebreaker round trip as a whole (no stream-level theorem: connectivity round trip, point '
-                       'assignment and the step to RoundTripOK are evaluated per case); paths reported as '
-                       'stream:*:model:unsupported_* / model:none in input_distribution are checked by RoundTripOK on the '
-                       "implementation's output only")
+CORRESPONDENCE_ONLY = ("Edgebreaker: the connectivity link (that the decoder's connectivity stage rebuilds a table isomorphic to"
+                       " the encoder's) and traversal coverage are hypotheses of eb_roundtrip_conditional_partial evaluated per "
+                       'case, not proved; paths reported as stream:*:model:unsupported_* / model:none in input_distribution are '
+                       "checked by RoundTripOK on the implementation's output only")
 EXPLANATION = ('composed end-to-end theorems for the model pairs of the sequential methods (DracoProps.C01: exactly '
                'expected g opts, any trailing bytes) and of the kd-tree method (DracoProps.C01Kd: expectedKd up to the '
                'order of points), each with the corollary that the executable specification RoundTripOK accepts the '
                'proved result; Edgebreaker (DracoProps.C01Eb): side coders, the inverse of every prediction scheme, the '
-               'whole attribute value block and the isomorphism chain are proved, the stream-level round trip is NOT — '
-               'it is evaluated per case by the op ebenc (rt-ok, iso-ok, hyp-ok, counts-ok). All three encoder models '
-               'are tied byte for byte, the decoder model token for token')
+               'whole attribute value block, the isomorphism chain and the stream-level eb_roundtrip_conditional_partial'
+               ' (both decodes consume exactly the stream and RoundTripOK accepts, GIVEN the connectivity link hconn / '
+               'hnf, decoder-side facts hdec / hids, value conditions hvals, domain conditions hatt / huid / hproc / '
+               'hfits, the plan setting hs, the row correspondence hrows and traversal coverage hcover; every hypothesis'
+               ' discharged on a one-triangle stream) are proved; the connectivity round trip and coverage are NOT — '
+               'they are evaluated per case by the op ebenc (iso-ok, coverage, hyp-ok, rt-ok, counts-ok). All three '
+               'encoder models are tied byte for byte, the decoder model token for token')
 TIMEOUT = 900
 CHECKS = {"rt", "valid", "consumed", "corr"}
 
